@@ -32,6 +32,9 @@ RULE = (
     "measures sum to the parent's (rtol 1e-9); where no map is returned (refine_grid_1d) the parent is the unique old "
     "cell containing the child's centre. structured_refinement returns a (fine x coarse) 0/1 matrix with exactly one 1 "
     "per fine row, in the column of the coarse cell that contains the fine centre (own point-in-simplex test). "
+    "In a third of the cases all lengths (nodes, rigid shift, extrusion heights) are multiplied by a unit factor in "
+    "{1e-5, 1e-4, 1e-3, 1e2, 1e3}; every tolerance of the oracle is relative to the grid's own extent (plus the "
+    "rounding floor of its coordinates), no absolute tolerance. "
     "Non-trivial = base grid with >= 2 cells (extrude: >= 2 layers or >= 2 cells); distinct = hash of spec."
 )
 BUDGET = {"quick": {"cases": 2000, "seconds": 40}, "thorough": {"cases": 60000, "seconds": 1200}}
@@ -48,7 +51,7 @@ ASSUMPTIONS = ["grids to be extruded lie in the xy-plane (documented preconditio
                "1-d grids to be extruded are TensorGrids (signature of _extrude_1d); permuted 1-d grids are not extruded",
                "remesh_1d is applied to 1-d grids without internal boundaries (docstring: use with care otherwise)"]
 FNS = ["refine1d", "remesh1d", "reftri", "reftri", "structref", "extrude", "extrude", "extrude"]
-REQUIRED = {"1d-permuted-cells": 0.03, "1d-permuted-nodes": 0.03, "refine1d": 0.05, "remesh1d": 0.05, "structref": 0.05, "extrude": 0.15, "extrude-0d": 0.01,
+REQUIRED = {"scaled-small": 0.1, "scaled-large": 0.05, "1d-permuted-cells": 0.03, "1d-permuted-nodes": 0.03, "refine1d": 0.05, "remesh1d": 0.05, "structref": 0.05, "extrude": 0.15, "extrude-0d": 0.01,
             "extrude-1d": 0.03, "extrude-2d": 0.05, "extrude-down": 0.03, "extrude-offset": 0.03}
 
 
@@ -117,7 +120,36 @@ def _spec(draw, tier):
         s["z0"] = draw(st.sampled_from([0.0, 0.0, 0.37, 1.5]))
         s["layers"] = [draw(_f(0.2, 1.5)) for _ in range(draw(st.integers(1, 4)))]
         s["down"] = draw(st.booleans())
+    # global length scale (unit of length) in about a third of the cases; everything with the dimension of a length
+    # is multiplied, including the shift of the rigid motion and the extrusion heights
+    sc = draw(st.sampled_from([None] * 10 + SCALES))
+    if sc is not None:
+        _apply_scale(s, sc)
     return s
+
+
+SCALES = [1e-5, 1e-4, 1e-3, 1e2, 1e3]
+
+
+def _apply_scale(s, sc):
+    s["scale"] = sc
+    if "grid" in s:
+        s["grid"]["scale"] = sc  # applied to the nodes by build_grid (before the rigid motion)
+        if s["grid"].get("rigid"):
+            s["grid"]["rigid"]["shift"] = [v * sc for v in s["grid"]["rigid"]["shift"]]
+    if "p1d" in s:
+        s["p1d"]["x"] = [v * sc for v in s["p1d"]["x"]]
+        if s["p1d"].get("rigid"):
+            s["p1d"]["rigid"]["shift"] = [v * sc for v in s["p1d"]["rigid"]["shift"]]
+    if "frac" in s:
+        s["frac"]["phys"] = [v * sc for v in s["frac"]["phys"]]
+    if "single" in s:
+        s["single"] = [[v * sc for v in pt] for pt in s["single"]]
+    if "point" in s:
+        s["point"] = [v * sc for v in s["point"]]
+    if "layers" in s:
+        s["z0"] = s["z0"] * sc
+        s["layers"] = [v * sc for v in s["layers"]]
 
 
 def strategy(tier):
@@ -140,7 +172,14 @@ def _known_reftri(s):
     return s["fn"] == "reftri" and "single" not in s
 
 
-KNOWN = {"C23-refine-triangle-grid-more-than-two-cells": _known_reftri}
+def _known_structref_3d_small(s):
+    """structured_refinement of tetrahedral grids whose size is 1e-3 or less (absolute tolerances compared with
+    lengths, areas and volumes inside point_in_polyhedron)."""
+    return s["fn"] == "structref" and s.get("grid", {}).get("kind") == "tet" and s.get("scale") is not None and s["scale"] < 1
+
+
+KNOWN = {"C23-refine-triangle-grid-more-than-two-cells": _known_reftri,
+         "C23-structured-refinement-3d-small-scale": _known_structref_3d_small}
 
 
 # ------------------------------------------------------------------------- geometric predicates
@@ -175,24 +214,36 @@ def _cell_vertices(g):
     return out
 
 
-def _in_segment(p, a, b, scale):
+def _ltol(nodes):
+    """Absolute length tolerance of a grid: 1e-9 of its extent plus the rounding floor of its coordinates."""
+    nodes = np.asarray(nodes, dtype=float)
+    if nodes.size == 0:
+        return 0.0
+    return 1e-9 * float(np.ptp(nodes, axis=1).max()) + 1e-13 * float(np.abs(nodes).max())
+
+
+def _in_segment(p, a, b, ltol):
     d = b - a
     t = float(np.dot(p - a, d) / np.dot(d, d))
     off = float(np.linalg.norm(p - a - t * d))
-    return 1e-9 < t < 1 - 1e-9 and off <= 1e-9 * scale
+    return 1e-9 < t < 1 - 1e-9 and off <= ltol
 
 
-def _bary(p, V):
-    """Barycentric coordinates of p w.r.t. the simplex with vertex columns V (3 x (d+1)), and the residual."""
-    A = np.vstack((V, np.ones((1, V.shape[1]))))
-    rhs = np.append(p, 1.0)
+def _bary(P, V):
+    """Barycentric coordinates of the points P (3 x m) w.r.t. the simplex with vertex columns V (3 x (d+1)), and the
+    residual lengths (distance from the simplex' plane / line). Coordinates are made dimensionless with the
+    simplex' own size first, so the result does not depend on the unit of length."""
+    P = np.asarray(P, dtype=float).reshape(3, -1)
+    size = float(np.abs(V - V[:, :1]).max())
+    A = np.vstack(((V - V[:, :1]) / size, np.ones((1, V.shape[1]))))
+    rhs = np.vstack(((P - V[:, :1]) / size, np.ones((1, P.shape[1]))))
     lam, *_ = np.linalg.lstsq(A, rhs, rcond=None)
-    return lam, float(np.linalg.norm(A @ lam - rhs))
+    return lam, np.linalg.norm(A @ lam - rhs, axis=0) * size
 
 
-def _in_simplex(p, V, scale):
+def _in_simplex(p, V, ltol):
     lam, res = _bary(p, V)
-    return bool(np.all(lam > 1e-9) and res <= 1e-9 * scale)
+    return bool(np.all(lam > 1e-9) and res[0] <= ltol)
 
 
 def _in_polygon_xy(p, P):
@@ -222,13 +273,22 @@ def _check_children(g, h, parent, per_parent, tag, factor=1.0):
     require(np.all(cnt == per_parent), tag + "children-count",
             lambda: f"children per parent {sorted(set(cnt.tolist()))}, expected {per_parent}")
     sums = np.bincount(parent, weights=h.cell_volumes, minlength=g.num_cells)
-    require_close(sums, factor * g.cell_volumes, tag + "children-measure", rtol=1e-9,
+    require_close(sums, factor * g.cell_volumes, tag + "children-measure", rtol=1e-9, atol=0.0,
                   what="sum of the children's measures vs parent measure")
     return parent
 
 
 # ------------------------------------------------------------------------- check
 def check(s):
+    out = _check(s)
+    labels = set(out["labels"])
+    if s.get("scale"):
+        labels.add("scaled-small" if s["scale"] < 1 else "scaled-large")
+        labels.add(f"scale-{s['scale']:g}")
+    return {"labels": sorted(labels), "nontrivial": out["nontrivial"]}
+
+
+def _check(s):
     import porepy as pp
 
     fn = s["fn"]
@@ -252,11 +312,12 @@ def check(s):
             g = build_grid(s["grid"])
             measure = grid_meta(s["grid"])["measure"]
             labels += grid_meta(s["grid"])["labels"]
-        scale = float(np.abs(g.nodes).max()) + 1.0
+        ltol = _ltol(g.nodes)
         verts = _cell_vertices(g)
         if fn == "remesh1d":
             old_nodes = g.nodes.copy()
-            h = pp.refinement.remesh_1d(g, s["num_nodes"])
+            # tol is the documented tolerance for matching old and new faces; a caller gives it in his unit of length
+            h = pp.refinement.remesh_1d(g, s["num_nodes"], tol=1e-6 * measure)
             require(h.dim == 1 and h.num_cells == s["num_nodes"] - 1 and h.num_nodes == s["num_nodes"], "remesh-sizes",
                     f"{h.num_cells} cells / {h.num_nodes} nodes for num_nodes={s['num_nodes']}")
             check_geometry(h, measure, "remesh-")
@@ -266,9 +327,10 @@ def check(s):
             ends = old_nodes[:, [i0, i1]]
             he = h.nodes[:, [int(np.argmin(h.nodes.T @ (ends[:, 1] - ends[:, 0]))),
                              int(np.argmax(h.nodes.T @ (ends[:, 1] - ends[:, 0])))]]
-            require_close(he, ends, "remesh-endpoints", rtol=1e-9, scale=scale, what="end points of the remeshed grid")
+            require(float(np.abs(he - ends).max()) <= ltol, "remesh-endpoints",
+                    f"end points of the remeshed grid differ from the old ones by {float(np.abs(he - ends).max()):.3e}")
             # equi-spaced
-            require_close(h.cell_volumes, np.full(h.num_cells, measure / h.num_cells), "remesh-equispaced", rtol=1e-9,
+            require_close(h.cell_volumes, np.full(h.num_cells, measure / h.num_cells), "remesh-equispaced", rtol=1e-9, atol=0.0,
                           what="cell lengths of the equi-spaced grid")
             return {"labels": labels, "nontrivial": g.num_cells >= 2 and s["num_nodes"] >= 3}
         r = s["ratio"]
@@ -279,7 +341,7 @@ def check(s):
         parent = np.full(h.num_cells, -1)
         for k in range(h.num_cells):
             hit = [c for c in range(g.num_cells)
-                   if _in_segment(h.cell_centers[:, k], g.nodes[:, verts[c][0]], g.nodes[:, verts[c][1]], scale)]
+                   if _in_segment(h.cell_centers[:, k], g.nodes[:, verts[c][0]], g.nodes[:, verts[c][1]], ltol)]
             require(len(hit) == 1, "refine1d-nesting", f"centre of new cell {k} lies in {len(hit)} old cells")
             parent[k] = hit[0]
         _check_children(g, h, parent, r, "refine1d-")
@@ -294,7 +356,7 @@ def check(s):
                 ts = sorted(float(np.dot(h.nodes[:, v] - a, d) / np.dot(d, d)) for v in hverts[k])
                 off = max(float(np.linalg.norm(h.nodes[:, v] - a - np.dot(h.nodes[:, v] - a, d) / np.dot(d, d) * d))
                           for v in hverts[k])
-                require(off <= 1e-9 * scale, "refine1d-tiling", f"child {k} of cell {c} leaves the parent's line")
+                require(off <= ltol, "refine1d-tiling", f"child {k} of cell {c} leaves the parent's line")
                 iv.append(ts)
             iv.sort()
             flat = np.array(iv)
@@ -302,7 +364,7 @@ def check(s):
                     f"children of cell {c} reach outside the parent: {iv}")
             require(abs(flat[0, 0]) <= 1e-9 and abs(flat[-1, 1] - 1) <= 1e-9 and np.all(np.abs(flat[1:, 0] - flat[:-1, 1]) <= 1e-9),
                     "refine1d-tiling", f"children of cell {c} overlap or leave a gap: {iv}")
-        require_close(h.cell_volumes, g.cell_volumes[parent] / r, "refine1d-equal-parts", rtol=1e-9,
+        require_close(h.cell_volumes, g.cell_volumes[parent] / r, "refine1d-equal-parts", rtol=1e-9, atol=0.0,
                       what="children are equal parts of the parent")
         if fn == "structref":
             M = pp.refinement.structured_refinement(g, h)
@@ -322,7 +384,7 @@ def check(s):
             g = build_grid(gs)
             meta = grid_meta(gs)
         labels += meta["labels"]
-        scale = float(np.abs(g.nodes).max()) + 1.0
+        ltol = _ltol(g.nodes)
         verts = _cell_vertices(g)
         h, parent = pp.refinement.refine_triangle_grid(g)
         require(h.dim == 2 and h.num_cells == 4 * g.num_cells, "reftri-sizes", f"{h.num_cells} cells from {g.num_cells}")
@@ -330,9 +392,9 @@ def check(s):
         check_geometry(h, meta["measure"], "reftri-")
         parent = _check_children(g, h, parent, 4, "reftri-")
         for k in range(h.num_cells):
-            require(_in_simplex(h.cell_centers[:, k], g.nodes[:, verts[parent[k]]], scale), "reftri-nesting",
+            require(_in_simplex(h.cell_centers[:, k], g.nodes[:, verts[parent[k]]], ltol), "reftri-nesting",
                     f"centre of new cell {k} is not inside its parent {parent[k]}")
-        require_close(h.cell_volumes, g.cell_volumes[parent] / 4, "reftri-equal-parts", rtol=1e-9,
+        require_close(h.cell_volumes, g.cell_volumes[parent] / 4, "reftri-equal-parts", rtol=1e-9, atol=0.0,
                       what="children are quarters of the parent")
         if g.num_cells > 2:
             labels.append("reftri-many-cells")
@@ -345,15 +407,12 @@ def check(s):
         fs["n"] = [k * s["ratio"] for k in gs["n"]]
         h = build_grid(fs)
         labels += grid_meta(gs)["labels"] + [f"structref-{gs['kind']}"]
-        scale = float(np.abs(g.nodes).max()) + 1.0
+        ltol = _ltol(g.nodes)
         verts = _cell_vertices(g)
         inside = np.zeros((g.num_cells, h.num_cells), dtype=bool)
-        rhs = np.vstack((h.cell_centers, np.ones((1, h.num_cells))))
         for c in range(g.num_cells):
-            A = np.vstack((g.nodes[:, verts[c]], np.ones((1, len(verts[c])))))
-            lam, *_ = np.linalg.lstsq(A, rhs, rcond=None)
-            res = np.linalg.norm(A @ lam - rhs, axis=0)
-            inside[c] = np.all(lam > 1e-9, axis=0) & (res <= 1e-9 * scale)
+            lam, res = _bary(h.cell_centers, g.nodes[:, verts[c]])
+            inside[c] = np.all(lam > 1e-9, axis=0) & (res <= ltol)
         if not np.all(inside.sum(axis=0) == 1):
             raise HarnessError("generated pair is not nested: a fine centre is not in exactly one coarse cell")
         parent = np.argmax(inside, axis=0)
@@ -397,7 +456,7 @@ def check(s):
     vol0 = old["cell_volumes"] if g.dim > 0 else np.ones(1)
     gg = type("G", (), {"num_cells": g.num_cells, "cell_volumes": vol0})
     _check_children(gg, h, parent, nl, "extrude-", factor=height)
-    scale = float(np.abs(h.nodes).max()) + 1.0
+    ltol = _ltol(h.nodes)
     verts = _cell_vertices(g) if g.dim > 0 else None
     zlo, zhi = min(zs[0], zs[-1]), max(zs[0], zs[-1])
     for k in range(h.num_cells):
@@ -405,11 +464,11 @@ def check(s):
         p = h.cell_centers[:, k]
         require(zlo < p[2] < zhi, "extrude-nesting", f"centre of new cell {k} outside the extruded z-range")
         if g.dim == 0:
-            ok = np.linalg.norm(p[:2] - np.array(s["point"])) <= 1e-9 * scale
+            ok = np.linalg.norm(p[:2] - np.array(s["point"])) <= ltol
         elif g.dim == 1:
             a, b = old["nodes"][:, verts[c][0]].copy(), old["nodes"][:, verts[c][1]].copy()
             q = np.array([p[0], p[1], 0.0])
-            ok = _in_segment(q, a, b, scale)
+            ok = _in_segment(q, a, b, ltol)
         else:
             ok = _in_polygon_xy(p[:2], old["nodes"][:2, verts[c]])
         require(ok, "extrude-nesting", f"centre of new cell {k} is not above / below its parent cell {c}")
@@ -417,7 +476,8 @@ def check(s):
     for c in range(g.num_cells):
         zc = np.sort(h.cell_centers[2, parent == c])
         mid = np.sort(0.5 * (zs[:-1] + zs[1:]))
-        require_close(zc, mid, "extrude-layers", rtol=1e-9, scale=scale, what="children's z-centres vs layer mid-planes")
+        require(zc.shape == mid.shape and float(np.abs(zc - mid).max()) <= ltol, "extrude-layers",
+                "children's z-centres differ from the layer mid-planes")
     return {"labels": labels, "nontrivial": g.num_cells >= 2 or nl >= 2}
 
 
